@@ -11,7 +11,7 @@ TraceU == Rec[1].universe
 VARIABLE l
 Init == l = 1
 
-Tup(f) == <<f[1], f[2], f[3], f[4]>>
+Tup(f) == <<f[1], f[2], f[3], f[4], f[5]>>
 Facts(r, name) == [i \in DOMAIN r.facts[name] |-> Tup(r.facts[name][i])]
 
 Bad(r) ==
